@@ -273,10 +273,20 @@ func (e *Engine) RunAll(bin string, scs []Scenario, perProc, jobs int) ([]Result
 
 // ---- workload
 
+// AssembleIndex makes the pool document with the given index (a pure function of the index).
+func AssembleIndex(idx int) string {
+	rng := rand.New(rand.NewSource(asmBase*1_000_003 + int64(idx)))
+	if idx >= AsmPoolV1 {
+		return AssembleV2(rng)
+	}
+	return Assemble(rng)
+}
+
 // AsmPool is the number of assembled documents in the pool; asmBase is the assembler seed of the pool.
 const (
-	AsmPool = 600
-	asmBase = 7
+	AsmPool   = 900
+	AsmPoolV1 = 600 // indices below are made by Assemble, those from here on by AssembleV2
+	asmBase   = 7
 )
 
 const defaultConfig = "parser:\n  infer_types: true\n  allow_remote: true\ngenerator:\n  ignore_not_implemented: [\"all\"]\n"
@@ -769,16 +779,36 @@ func (e *Engine) Check(c *core.Ctx, filter func(Input) bool) (*core.Outcome, err
 		// The documents come from a fixed pool (AsmPool indices, each a pure function of its index) that has been
 		// run through this check on the unchanged tree; VERIF_SEED selects which part of the pool a run uses and
 		// drives orders, schedules and faults, but does not invent documents nobody has looked at.
-		from := int((c.Seed*int64(nAsm))%int64(AsmPool-nAsm+1)+int64(AsmPool-nAsm+1)) % (AsmPool - nAsm + 1)
+		// two thirds from the first part of the pool, one third from the second (AssembleV2)
+		n2 := nAsm / 3
+		n1 := nAsm - n2
+		pos := func(seed int64, n, size int) int {
+			if n >= size {
+				return 0
+			}
+			return int((seed*int64(n))%int64(size-n+1)+int64(size-n+1)) % (size - n + 1)
+		}
+		var indices []int
+		for k := 0; k < n1; k++ {
+			indices = append(indices, (pos(c.Seed, n1, AsmPoolV1)+k)%AsmPoolV1)
+		}
+		for k := 0; k < n2; k++ {
+			indices = append(indices, AsmPoolV1+(pos(c.Seed, n2, AsmPool-AsmPoolV1)+k)%(AsmPool-AsmPoolV1))
+		}
 		if v := os.Getenv("VERIF_C10_ASM_FROM"); v != "" {
-			fmt.Sscan(v, &from) // development aid: hunt through other indices
+			// development aid: a contiguous range of the pool
+			from := 0
+			fmt.Sscan(v, &from)
+			indices = nil
+			for k := 0; k < nAsm; k++ {
+				indices = append(indices, (from+k)%AsmPool)
+			}
 		}
 		adir := filepath.Join(e.S.Dir, "assembled")
 		_ = os.MkdirAll(adir, 0o755)
-		for k := 0; k < nAsm; k++ {
-			idx := from + k
+		for _, idx := range indices {
 			p := filepath.Join(adir, fmt.Sprintf("asm-%d-%d.yml", asmBase, idx))
-			doc := Assemble(rand.New(rand.NewSource(asmBase*1_000_003 + int64(idx))))
+			doc := AssembleIndex(idx)
 			if err := os.WriteFile(p, []byte(doc), 0o644); err != nil {
 				return nil, build.Toolf("assembler: %v", err)
 			}
